@@ -139,6 +139,12 @@ func (g *Gen) decorate(o *Op) {
 		if g.R.Chance(0.3) {
 			o.Dur = g.R.Range(1, 4)
 		}
+		if g.R.Chance(0.2) && len(o.Vals) > 0 {
+			// no timestamp: the latest version (DeleteOneVersion) or all versions;
+			// the server attributes the request by its row
+			o.NoTS = true
+			o.Key = append(append([]byte(nil), o.Key...), []byte(fmt.Sprintf("~%d", o.Nonce))...)
+		}
 		if g.R.Chance(0.2) {
 			o.Vals = map[string]map[string][]byte{"cf": {"q": nil, "x1": nil}, "d": nil}
 		}
@@ -151,7 +157,7 @@ func init() {
 			ops := w.opIndex()
 			rows := map[string]uint64{}
 			for n, op := range ops {
-				if op.TR == "none" {
+				if op.TR == "none" || op.NoTS {
 					rows[string(op.Key)] = n
 				}
 			}
